@@ -140,6 +140,16 @@ func regression(class string, seed int64) []scenario {
 			sc.Undrained = true
 			add(sc)
 		}
+	case "dial-apis":
+		for _, mode := range []string{"serial", "tcp"} {
+			for _, api := range []string{"url", "urlctx", "urlctx-timeout"} {
+				sc := base(mode, true, 4096)
+				sc.DialAPI = api
+				sc.A = []item{arq(10), arq(300), arq(5)}
+				sc.Writes = []write{{N: 10, Flush: true}, {N: 700, Flush: true, Hold: 200}, {N: 3, Flush: true}}
+				add(sc)
+			}
+		}
 	case "remote-disconnect":
 		for _, mode := range []string{"serial", "tcp"} {
 			sc := base(mode, true, 16)
